@@ -91,6 +91,16 @@ Theorem C20_step_rearms : forall c d t pv, valid_date d -> valid_time t -> wf_sc
 Proof. exact step_rearms. Qed.
 Print Assumptions C20_step_rearms.
 
+(* the instant the timer is armed for reads, on the (constant-offset) wall clock, exactly the
+   reported transition — or 00:00:00 of the next day for the end-of-day marker 24:00.  This is the
+   constant-offset instance of ScheduleSpec.dtt_requirement; for zones whose offset changes the
+   requirement is checked on the implementation (time.mktime is trusted CPython, not modelled) *)
+Theorem C20_arm_reading : forall d n, arm_ok n ->
+  has255 n = false /\
+  ((n = next_day /\ normalise d n = (next_date d, (0, 0, 0, 0))) \/ (n <> next_day /\ normalise d n = (d, n))).
+Proof. exact normalise_arm. Qed.
+Print Assumptions C20_arm_reading.
+
 (* the timer-driven life: any number of firings, across days and across the edges of the effective
    period, none fails and each re-arms (dates stay within 1900..2154) *)
 Theorem C20_runs_across_days : forall fuel c d t pv,
